@@ -21,14 +21,14 @@ IsEvent(e) == l <= Len(TraceLog) /\ Ev.op = e /\ l' = l + 1
 TEv == /\ IsEvent("ev")
        /\ maxTs' = Max2(maxTs, Ev.ts)
        /\ out' = Append(out, [ty |-> "ev", v |-> Ev.ts])
-       /\ UNCHANGED <<q, nev, ntick, hist>>
+       /\ UNCHANGED <<q, infl, nev, ntick, hist>>
 \* Abs accepts any value here; the invariants judge it
 TWm == /\ IsEvent("wm")
        /\ out' = Append(out, [ty |-> "wm", v |-> Ev.v])
-       /\ UNCHANGED <<q, maxTs, nev, ntick, hist>>
+       /\ UNCHANGED <<q, maxTs, infl, nev, ntick, hist>>
 TReset == /\ IsEvent("Reset")
           /\ maxTs' = ZeroT /\ out' = <<>>
-          /\ UNCHANGED <<q, nev, ntick, hist>>
+          /\ UNCHANGED <<q, infl, nev, ntick, hist>>
 
 TraceNext == TEv \/ TWm \/ TReset
 TraceSpec == TraceInit /\ [][TraceNext]_tvars
